@@ -315,6 +315,7 @@ def r2(chk, ctx, p, se):
     handlers = c14.r1(chk, ctx)
     c14.r6(chk, ctx, handlers)
     c05.r1(chk, ctx, p, se)
+    c07.r1(chk, ctx, p, se)   # which errors are 'unhandled' is decided by the retry/catch scan
     c07.r3(chk, ctx, p, se)
 
 
